@@ -88,9 +88,35 @@ def main(argv=None):
     else:
         import multiprocessing as mp
 
+        # watchdog: z3 does not always honour its own timeout inside nonlinear arithmetic; if no
+        # shard finishes for `stall` seconds the remaining ones are abandoned and reported as a
+        # harness error (exit 3: undecided, never 'held' and never VIOLATION)
+        stall = float(os.environ.get("PV_STALL_SECONDS", "1200" if a.tier == "quick" else "5400"))
         ctx = mp.get_context("spawn")
-        with ctx.Pool(jobs, maxtasksperchild=1) as pool:
-            results = list(pool.imap_unordered(_shard_worker, work, chunksize=1))
+        results = []
+        pool = ctx.Pool(jobs, maxtasksperchild=1)
+        try:
+            pending = [(w, pool.apply_async(_shard_worker, (w,))) for w in work]
+            last = time.time()
+            while pending:
+                still = []
+                for w, ar in pending:
+                    if ar.ready():
+                        results.append(ar.get())
+                        last = time.time()
+                    else:
+                        still.append((w, ar))
+                pending = still
+                if pending and time.time() - last > stall:
+                    for w, _ in pending:
+                        rep.harness_errors.append(f"shard {w[3]!r}: no result within the watchdog limit "
+                                                  f"({stall:.0f} s without progress); undecided")
+                    break
+                if pending:
+                    time.sleep(0.1)
+        finally:
+            pool.terminate()
+            pool.join()
     for r in results:
         rep.merge(r)
     meta = getattr(mod, "META", {})
@@ -125,6 +151,9 @@ def finish(rep, mod, t0):
         code = 3
     if rep.harness_errors:
         msgs.append("harness error: " + rep.harness_errors[0][-2500:])
+        code = 3
+    if rep.inconclusive:
+        msgs.append(f"{len(rep.inconclusive)} obligation(s) undecided by the solvers within the time limit")
         code = 3
     if rep.violations:
         code = 1
